@@ -22,7 +22,7 @@ FromJ(x) ==
     IN [k \in Keys |-> IF x[k].h = "D" THEN [m |-> base[k].m, h |-> DirH(Sig(base, k))] ELSE base[k]]
 CallRec == Recs[i].calls[j]
 OptsOf(c) == [unchanged |-> c.opts.unchanged, hash_only |-> c.opts.hash_only, meta_only |-> c.opts.meta_only,
-              shallow |-> c.opts.shallow]
+              shallow |-> c.opts.shallow, key |-> c.opts.key]
 Pairs(sq) == {<<sq[x][1], sq[x][2]>> : x \in DOMAIN sq}
 Triples(sq) == {IF Len(sq[x]) = 3 THEN <<sq[x][1], sq[x][2], sq[x][3]>> ELSE <<sq[x][1], sq[x][2]>> : x \in DOMAIN sq}
 
